@@ -83,7 +83,7 @@ func LiveMPD(a *asset, mpdName string, cfg *ResponseConfig, drmCfg *drm.DrmConfi
 			switch {
 			case strings.HasPrefix(cfg.URLParts[i], "startrel_"):
 				strBuf.WriteString(fmt.Sprintf("start_%d", cfg.StartTimeS))
-			case strings.HasPrefix(cfg.URLParts[i], "stoprel_"):
+			case strings.HasPrefix(cfg.URLParts[i], "stoprel_") && cfg.StopTimeS != nil:
 				strBuf.WriteString(fmt.Sprintf("stop_%d", *cfg.StopTimeS))
 			default:
 				strBuf.WriteString(cfg.URLParts[i])
